@@ -388,3 +388,54 @@ fn c07_clean3() {
   kani::cover!(wl == 0 && n == 3);
   core::mem::forget(out);
 }
+
+/// `base64_decode` on 4 bytes, each drawn from a small alphabet that contains the padding
+/// character, one character of each alphabet and plain sextets: all 6^4 combinations
+/// against the RFC 4648 reference (canonical padding only at the end, at most two).
+#[kani::proof]
+#[kani::unwind(8)]
+fn c07_b64_4small() {
+  const ALPHA: [u8; 6] = [b'=', b'A', b'g', b'/', b'_', b'Q'];
+  let k: [u8; 4] = kani::any();
+  kani::assume(k[0] < 6 && k[1] < 6 && k[2] < 6 && k[3] < 6);
+  let p = [ALPHA[k[0] as usize], ALPHA[k[1] as usize], ALPHA[k[2] as usize], ALPHA[k[3] as usize]];
+  let r = h::base64_decode(&p);
+  let want = ref_b64_decode(&p);
+  match (&r, &want) {
+    (Ok(v), Some(w)) => {
+      assert!(v.len() == w.len());
+      let mut i = 0;
+      while i < 3 {
+        if i < v.len() {
+          assert!(v[i] == w[i]);
+        }
+        i += 1;
+      }
+    }
+    (Err(_), None) => {}
+    _ => assert!(false),
+  }
+  kani::cover!(r.is_ok() && p[3] == b'=' && p[2] == b'=');
+  kani::cover!(r.is_ok() && p[3] != b'=');
+  kani::cover!(r.is_err() && p[0] == b'=');
+  core::mem::forget(r);
+  core::mem::forget(want);
+}
+
+/// Padding forms on a fixed two-character body: "QQ" + x + y with x, y in {'=', 'A'}:
+/// only "QQ==" (canonical) and "QQAA" (no padding) decode; "QQ=A" and "QQA=" do not
+/// ("QQA=" has non-zero trailing bits? no: 'A' = 0 — it is canonical for two bytes).
+#[kani::proof]
+#[kani::unwind(8)]
+fn c07_b64_padforms() {
+  let x: bool = kani::any();
+  let y: bool = kani::any();
+  let p = [b'Q', b'Q', if x { b'=' } else { b'A' }, if y { b'=' } else { b'A' }];
+  let r = h::base64_decode(&p);
+  let want = ref_b64_decode(&p);
+  assert!(r.is_ok() == want.is_some());
+  kani::cover!(r.is_ok() && x && y);
+  kani::cover!(r.is_err());
+  core::mem::forget(r);
+  core::mem::forget(want);
+}
